@@ -422,3 +422,131 @@ Proof. intros H. exact (zq_bounds_run c ops _ _ _ H (zq_inv_s0 c)). Qed.
 Lemma sa_constants : saMinUnknownVersionPacketSize = 1200 /\ saMinInitialPacketSize = 1200 /\
   saMax0RTTQueues = 32 /\ saMax0RTTQueueLen = 31.
 Proof. repeat split; reflexivity. Qed.
+
+(** ---- buffered 0-RTT packets: handed to at most one connection, at most once ---- *)
+
+Fixpoint qsum (q : list (cid * (Z * Z))) : Z :=
+  match q with [] => 0 | (_, (n, _)) :: r => n + qsum r end.
+Definition q_nonneg (q : list (cid * (Z * Z))) : Prop := forall k n e, In (k, (n, e)) q -> 0 <= n.
+
+Definition early_of (o : sout) : Z := match o with SNewConn _ _ _ _ _ e => e | _ => 0 end.
+Definition queued_of (o : sout) : Z := match o with SQueued0RTT => 1 | _ => 0 end.
+Fixpoint n_handed (outs : list sout) : Z := match outs with [] => 0 | o :: r => early_of o + n_handed r end.
+Fixpoint n_queued (outs : list sout) : Z := match outs with [] => 0 | o :: r => queued_of o + n_queued r end.
+
+Lemma qsum_nonneg q : q_nonneg q -> 0 <= qsum q.
+Proof.
+  induction q as [|[k [n e]] r IH]; simpl; intros H; [lia|].
+  pose proof (H k n e (or_introl eq_refl)). assert (q_nonneg r) by (intros a b c I; eapply H; right; eauto). specialize (IH H1). lia.
+Qed.
+
+Lemma q_nonneg_tail k n e r : q_nonneg ((k, (n, e)) :: r) -> 0 <= n /\ q_nonneg r.
+Proof. intros H. split; [eapply H; left; reflexivity | intros a b c I; eapply H; right; eauto]. Qed.
+
+Lemma zget_In c q v : zget c q = Some v -> exists k, In (k, v) q.
+Proof.
+  induction q as [|[k w] r IH]; simpl; [discriminate|].
+  destruct (cid_eqb k c); intros H; [inversion H; subst; exists k; left; reflexivity|].
+  destruct (IH H) as (k' & I). exists k'. right. exact I.
+Qed.
+
+Lemma qsum_zdel c q : q_nonneg q -> q_nonneg (zdel c q) /\
+  qsum (zdel c q) + (match zget c q with Some (n, _) => n | None => 0 end) <= qsum q.
+Proof.
+  induction q as [|[k [n e]] r IH]; simpl; intros H; [split; [intros ? ? ? []|lia]|].
+  destruct (q_nonneg_tail _ _ _ _ H) as (Hn & Hr). destruct (IH Hr) as (N & L).
+  destruct (cid_eqb k c) eqn:E.
+  - split; [exact N|]. pose proof (qsum_nonneg _ N). pose proof (qsum_nonneg _ Hr).
+    destruct (zget c r) as [[m e']|] eqn:G; [|lia].
+    destruct (zget_In _ _ _ G) as (k' & I). pose proof (Hr _ _ _ I). lia.
+  - split.
+    + intros a b d [I|I]; [inversion I; subst; exact Hn | eapply N; eauto].
+    + simpl. lia.
+Qed.
+
+Lemma qsum_zdel_le c q : q_nonneg q -> q_nonneg (zdel c q) /\ qsum (zdel c q) <= qsum q.
+Proof.
+  intros H. destruct (qsum_zdel c q H) as (N & L). split; [exact N|].
+  destruct (zget c q) as [[m e]|] eqn:G; [|lia].
+  destruct (zget_In _ _ _ G) as (k & I). pose proof (H _ _ _ I). lia.
+Qed.
+
+Lemma qsum_keep now q : q_nonneg q -> q_nonneg (zq_keep now q) /\ qsum (zq_keep now q) <= qsum q.
+Proof.
+  induction q as [|[k [n e]] r IH]; simpl; intros H; [split; [intros ? ? ? []|lia]|].
+  destruct (q_nonneg_tail _ _ _ _ H) as (Hn & Hr). destruct (IH Hr) as (N & L).
+  destruct (now <? e).
+  - split; [intros a b d [I|I]; [inversion I; subst; exact Hn | eapply N; eauto] | simpl; lia].
+  - split; [exact N | lia].
+Qed.
+
+Lemma qsum_zinc c q : q_nonneg q -> zget c q <> None -> q_nonneg (zinc c q) /\ qsum (zinc c q) = qsum q + 1.
+Proof.
+  induction q as [|[k [n e]] r IH]; simpl; intros H G; [contradiction|].
+  destruct (q_nonneg_tail _ _ _ _ H) as (Hn & Hr).
+  destruct (cid_eqb k c) eqn:E.
+  - split; [intros a b d [I|I]; [inversion I; subst; lia | eapply Hr; eauto] | simpl; lia].
+  - destruct (IH Hr G) as (N & L).
+    split; [intros a b d [I|I]; [inversion I; subst; exact Hn | eapply N; eauto] | simpl; lia].
+Qed.
+
+Lemma qsum_app q x : qsum (q ++ [x]) = qsum q + (match x with (_, (n, _)) => n end).
+Proof. induction q as [|[k [n e]] r IH]; simpl; [destruct x as [? [? ?]]; lia | rewrite IH; lia]. Qed.
+
+Local Opaque Z.add.
+Lemma early_core c s now p s1 o : recv_core c s now p = (s1, o) -> q_nonneg (zq s) ->
+  q_nonneg (zq s1) /\ early_of o + qsum (zq s1) <= queued_of o + qsum (zq s).
+Proof.
+  intros H N. revert H. core_cases p; try (split; [exact N | lia]).
+  all: try (destruct (qsum_zdel dcid (zq s) N) as (N1 & L1);
+            repeat match goal with G : zget _ _ = _ |- _ => rewrite G in L1; clear G end;
+            pose proof (qsum_nonneg _ N1); split; [exact N1 | lia]).
+  all: try (destruct (qsum_zdel_le dcid (zq s) N) as (N1 & L1); split; [exact N1 | lia]).
+  all: try (assert (G : zget dcid (zq s) <> None) by congruence;
+            destruct (qsum_zinc dcid (zq s) N G) as (N1 & L1); split; [exact N1 | lia]).
+  all: split; [intros a b d I; apply in_app_or in I; destruct I as [I|[I|[]]]; [eapply N; eauto | inversion I; lia] | rewrite qsum_app; lia].
+Qed.
+
+Local Transparent Z.add.
+
+Lemma early_step c s o s1 out : sstep c s o = (s1, out) -> q_nonneg (zq s) ->
+  q_nonneg (zq s1) /\ early_of out + qsum (zq s1) <= queued_of out + qsum (zq s).
+Proof.
+  intros H N. destruct o as [now p|]; simpl in H.
+  - unfold recv in H. destruct (recv_core c s now p) as [sx ox] eqn:E.
+    destruct (early_core _ _ _ _ _ _ E N) as (N1 & L1).
+    destruct (negb (nextCleanup s =? 0) && (nextCleanup s <? now)); inversion H; subst; [|auto].
+    unfold cleanup, set_zq. simpl. destruct (qsum_keep now (zq sx) N1) as (N2 & L2). split; [exact N2 | lia].
+  - unfold drain in H. inversion H; subst. simpl. split; [exact N | lia].
+Qed.
+
+(** Over any input: the 0-RTT packets handed to new connections plus those still queued never exceed those that were
+    queued — a buffered packet is handed to at most one connection (the one created for its DCID: [early] of SNewConn is
+    that DCID's queue, which is deleted with the hand-over), at most once; everything else was dropped (queue bounds,
+    expiry after Max0RTTQueueingDuration, a Retry or a refusal for that DCID). *)
+Lemma early_at_most_once c ops : forall s s' outs, srun c s ops = (s', outs) -> q_nonneg (zq s) ->
+  q_nonneg (zq s') /\ n_handed outs + qsum (zq s') <= n_queued outs + qsum (zq s).
+Proof.
+  induction ops as [|o r IH]; intros s s' outs H N.
+  - simpl in H. inversion H; subst. simpl. split; [exact N | lia].
+  - rewrite srun_cons in H. destruct (sstep c s o) as [s1 out] eqn:Hs.
+    destruct (srun c s1 r) as [s2 o2] eqn:Hr. inversion H; subst.
+    destruct (early_step _ _ _ _ _ Hs N) as (N1 & L1). destruct (IH _ _ _ Hr N1) as (N2 & L2).
+    split; [exact N2 | simpl; lia].
+Qed.
+
+Lemma sa_early_at_most_once c ops s' outs : srun c s0 ops = (s', outs) ->
+  n_handed outs + qsum (zq s') <= n_queued outs /\ 0 <= qsum (zq s').
+Proof.
+  intros H. destruct (early_at_most_once c ops _ _ _ H) as (N & L); [intros ? ? ? []|].
+  simpl in L. split; [lia | apply qsum_nonneg; exact N].
+Qed.
+
+(** the clean-up keeps exactly the queues that have not expired *)
+Lemma cleanup_expired s now k n e : In (k, (n, e)) (zq (cleanup s now)) -> now < e /\ In (k, (n, e)) (zq s).
+Proof.
+  unfold cleanup, set_zq. simpl. induction (zq s) as [|[k' [n' e']] r IH]; simpl; [intros []|].
+  destruct (Z.ltb_spec now e').
+  - intros [I|I]; [inversion I; subst; split; [lia | left; reflexivity] | destruct (IH I); split; [assumption | right; assumption]].
+  - intros I. destruct (IH I). split; [assumption | right; assumption].
+Qed.
